@@ -301,21 +301,21 @@ impl OrdSpecImpl for Version { open spec fn obeys_cmp_spec() -> bool { true } op
         for tr, fnn in (('PartialEq', 'eq'), ('PartialOrd', 'partial_cmp'), ('Ord', 'cmp')):
             if tr in ident_handwritten:
                 def u(tr=tr, fnn=fnn):
-                    g.emit('m_version', g.trait_impl(LIB, r'^impl (?:cmp::|std::cmp::)?%s for Identifier \{' % tr, 'impl %s for Identifier' % tr, fnn, 'Identifier::' + fnn, 'm_version', {}, 'Identifier'))
+                    g.emit('m_version', g.trait_impl(LIB, r'^impl (?:::)?(?:std::|core::)?(?:cmp::)?%s for Identifier \{' % tr, 'impl %s for Identifier' % tr, fnn, 'Identifier::' + fnn, 'm_version', {}, 'Identifier'))
                 g.unit('Identifier::' + fnn, u)
         if 'Eq' not in dl:
             g.emit('m_version', 'impl Eq for Identifier {}')
 
     def u_eq():
-        g.emit('m_version', 'impl Eq for Version {}\n' + g.trait_impl(LIB, r'^impl PartialEq for Version \{', 'impl PartialEq for Version', 'eq', 'Version::eq', 'm_version', V['eq'], 'Version'))
+        g.emit('m_version', 'impl Eq for Version {}\n' + g.trait_impl(LIB, r'^impl (?:::)?(?:std::|core::)?(?:cmp::)?PartialEq for Version \{', 'impl PartialEq for Version', 'eq', 'Version::eq', 'm_version', V['eq'], 'Version'))
     g.unit('Version::eq', u_eq)
 
     def u_pcmp():
-        g.emit('m_version', g.trait_impl(LIB, r'^impl (?:std::)?(?:cmp::)?PartialOrd for Version \{', 'impl cmp::PartialOrd for Version', 'partial_cmp', 'Version::partial_cmp', 'm_version', V['partial_cmp'], 'Version'))
+        g.emit('m_version', g.trait_impl(LIB, r'^impl (?:::)?(?:std::|core::)?(?:cmp::)?PartialOrd for Version \{', 'impl cmp::PartialOrd for Version', 'partial_cmp', 'Version::partial_cmp', 'm_version', V['partial_cmp'], 'Version'))
     g.unit('Version::partial_cmp', u_pcmp)
 
     def u_cmp():
-        g.emit('m_version', g.trait_impl(LIB, r'^impl (?:std::)?(?:cmp::)?Ord for Version \{', 'impl cmp::Ord for Version', 'cmp', 'Version::cmp', 'm_version', V['cmp'], 'Version'))
+        g.emit('m_version', g.trait_impl(LIB, r'^impl (?:::)?(?:std::|core::)?(?:cmp::)?Ord for Version \{', 'impl cmp::Ord for Version', 'cmp', 'Version::cmp', 'm_version', V['cmp'], 'Version'))
     g.unit('Version::cmp', u_cmp)
     g.emit('m_version', P('diff_spec.rs'))
     g.emit('m_version', P('hash_model.rs'))
@@ -323,7 +323,7 @@ impl OrdSpecImpl for Version { open spec fn obeys_cmp_spec() -> bool { true } op
     g.unit('impl Version', lambda: g.emit('m_version', g.impl_block(LIB, r'^impl Version \{', 'impl Version', tbl, 'Version', 'm_version', skip=('parse',))))
 
     def u_hash():
-        g.emit('m_version', g.trait_impl(LIB, r'^impl (?:std::hash::|hash::)?Hash for Version \{', 'impl std::hash::Hash for Version', 'hash', 'Version::hash', 'm_version', V['hash'], 'Version'))
+        g.emit('m_version', g.trait_impl(LIB, r'^impl (?:::)?(?:std::|core::)?(?:hash::)?Hash for Version \{', 'impl std::hash::Hash for Version', 'hash', 'Version::hash', 'm_version', V['hash'], 'Version'))
     g.unit('Version::hash', u_hash)
 
     # R3: macro instantiation for u64 (verified here); the signed instance used by literals is i32 (contract proved by Kani, C18)
@@ -348,8 +348,8 @@ impl OrdSpecImpl for Version { open spec fn obeys_cmp_spec() -> bool { true } op
     g.emit('m_bound_spec', P('bound_spec.rs'))
     g.unit('impl Predicate', lambda: g.emit('m_bound', g.impl_block(RNG, r'^impl Predicate \{', 'impl Predicate', K.PREDICATE, 'Predicate', 'm_bound')))
     g.unit('impl Bound', lambda: g.emit('m_bound', g.impl_block(RNG, r'^impl Bound \{', 'impl Bound', K.BOUND, 'Bound', 'm_bound')))
-    g.unit('Bound::cmp', lambda: g.emit('m_bound', g.trait_impl(RNG, r'^impl (?:std::)?(?:cmp::)?Ord for Bound \{', 'impl Ord for Bound', 'cmp', 'Bound::cmp', 'm_bound', K.BOUND_ORD['cmp'], 'Bound')))
-    g.unit('Bound::partial_cmp', lambda: g.emit('m_bound', g.trait_impl(RNG, r'^impl (?:std::)?(?:cmp::)?PartialOrd for Bound \{', 'impl PartialOrd for Bound', 'partial_cmp', 'Bound::partial_cmp', 'm_bound', {}, 'Bound')))
+    g.unit('Bound::cmp', lambda: g.emit('m_bound', g.trait_impl(RNG, r'^impl (?:::)?(?:std::|core::)?(?:cmp::)?Ord for Bound \{', 'impl Ord for Bound', 'cmp', 'Bound::cmp', 'm_bound', K.BOUND_ORD['cmp'], 'Bound')))
+    g.unit('Bound::partial_cmp', lambda: g.emit('m_bound', g.trait_impl(RNG, r'^impl (?:::)?(?:std::|core::)?(?:cmp::)?PartialOrd for Bound \{', 'impl PartialOrd for Bound', 'partial_cmp', 'Bound::partial_cmp', 'm_bound', {}, 'Bound')))
     g.unit('impl BoundSet', lambda: g.emit('m_bound', g.impl_block(RNG, r'^impl BoundSet \{', 'impl BoundSet', K.BOUNDSET, 'BoundSet', 'm_bound', pre=r1_split_or_guard)))
     g.emit('m_bound', P('fmt_model.rs'))
 
@@ -421,14 +421,16 @@ impl OrdSpecImpl for Version { open spec fn obeys_cmp_spec() -> bool { true } op
         rng_fn = top_fn(RNG, 'range').verbatim
         rng_code = top_fn(RNG, 'range').code
         flat = re.sub(r'\s+', '', rng_code)
-        # the comparator list reaches intersect_all as the parser produced it: the closure is exactly `|x| intersect_all(&x)`
-        if len(re.findall(r'separated\(', flat)) != 1 or not re.search(r'Parser::map\(separated\(0\.\.,simple,space1\),\|(\w+)(?::Vec<Option<BoundSet>>)?\|\{?intersect_all\(&\1\);?\}?,?\)', flat):
-            raise AnchorLost('range(): `Parser::map(separated(0.., simple, space1), |bs| intersect_all(&bs))`')
-        g.pins.append('range() = Parser::map(separated(0.., simple, space1), |bs| intersect_all(&bs)) -- the closure hands the list over untouched')
-        bs_fn = re.sub(r'\s+', '', top_fn(RNG, 'bound_sets').code)
-        if not re.search(r'Parser::map\(separated\(0\.\.,range,logical_or\),\|(\w+)(?::Vec<Vec<BoundSet>>)?\|\{?\1\.into_iter\(\)\.flatten\(\)\.collect\(\);?\}?,?\)', bs_fn):
-            raise AnchorLost('bound_sets(): `Parser::map(separated(0.., range, logical_or), |sets| sets.into_iter().flatten().collect())`')
-        g.pins.append('bound_sets() = Parser::map(separated(0.., range, logical_or), |sets| sets.into_iter().flatten().collect()) -- every alternative is kept')
+        body = flat[flat.index('{'):]
+        # the WHOLE body is pinned: the comparator list reaches intersect_all as the parser produced it, nothing wraps the result
+        if not re.fullmatch(r'\{alt\(\(Parser::map\(preceded\(space0,peek\(alt\(\(literal\(""\),eof\)\)\)\),\|_\|\{.*?\}\),Parser::map\(separated\(0\.\.,simple,space1\),\|(\w+)(?::Vec<Option<BoundSet>>)?\|\{?intersect_all\(&\1\);?\}?,?\),?\)\)\.parse_next\(input\)\}', body):
+            raise AnchorLost('range(): `alt((Parser::map(<empty range>, |_| {..}), Parser::map(separated(0.., simple, space1), |bs| intersect_all(&bs)))).parse_next(input)` and nothing else')
+        g.pins.append('range() = alt((empty-range arm, Parser::map(separated(0.., simple, space1), |bs| intersect_all(&bs)))).parse_next(input) -- whole body pinned: the closure hands the list over untouched, nothing wraps the result')
+        bs_flat = re.sub(r'\s+', '', top_fn(RNG, 'bound_sets').code)
+        bs_body = bs_flat[bs_flat.index('{'):]
+        if not re.fullmatch(r'\{Parser::map\(separated\(0\.\.,range,logical_or\),\|(\w+)(?::Vec<Vec<BoundSet>>)?\|\{?\1\.into_iter\(\)\.flatten\(\)\.collect\(\);?\}?,?\)\.parse_next\(input\)\}', bs_body):
+            raise AnchorLost('bound_sets(): `Parser::map(separated(0.., range, logical_or), |sets| sets.into_iter().flatten().collect()).parse_next(input)` and nothing else')
+        g.pins.append('bound_sets() = Parser::map(separated(0.., range, logical_or), |sets| sets.into_iter().flatten().collect()).parse_next(input) -- whole body pinned: every alternative is kept')
         g.emit('m_conj', g.inj(sl, 'intersect_all', 'm_conj', K.INTERSECT_ALL, make_pub=True))
         # the closure of the other arm of range(): the empty range is `*`
         mk = re.search(r'Parser::map\(preceded\(space0, peek\(alt\(\(literal\("\|\|"\), eof\)\)\)\), \|_\| \{', rng_fn)
@@ -459,6 +461,7 @@ impl OrdSpecImpl for Version { open spec fn obeys_cmp_spec() -> bool { true } op
 
     def lifted(name, sig, grid, sl, hint=K.DESUGAR_HINT, tail='', head=''):
         sl.rewrites.append('R5 closure body lifted into fn ' + name)
+        r13_asserts(sl)
         if name in g.stub:
             g.stubbed.append(name)
             g.rec(sl, name, 'm_desugar', 'closure', dropped='BODY NOT VERIFIED (stubbed as external_body)')
@@ -594,7 +597,7 @@ impl OrdSpecImpl for Version { open spec fn obeys_cmp_spec() -> bool { true } op
     for (nm, src, mod) in g.handwritten_clone:
         def u_clone(nm=nm, src=src, mod=mod):
             oid = nm + '::clone'
-            g.emit(mod, g.trait_impl(src, r'^impl (?:std::clone::|clone::)?Clone for %s \{' % nm, 'impl Clone for %s' % nm, 'clone', oid, mod, dict(ret='r', contract='    ensures r == *self,'), nm))
+            g.emit(mod, g.trait_impl(src, r'^impl (?:::)?(?:std::|core::)?(?:clone::)?Clone for %s \{' % nm, 'impl Clone for %s' % nm, 'clone', oid, mod, dict(ret='r', contract='    ensures r == *self,'), nm))
             g.overrides[oid] = '*'
         before = len(g.lost_items)
         g.unit(nm + '::clone', u_clone)
@@ -621,6 +624,8 @@ impl OrdSpecImpl for Version { open spec fn obeys_cmp_spec() -> bool { true } op
             expected = {'Version': ('PartialEq', 'Eq', 'PartialOrd', 'Ord', 'Hash'), 'Bound': ('PartialOrd', 'Ord')}
             if sem in ('PartialEq', 'Eq', 'PartialOrd', 'Ord', 'Hash') and sem not in expected.get(ty, ()) and not (ty == 'Identifier' and sem in ident_handwritten + ['Eq']):
                 g.lost_items.append(('impl ' + ty, 'hand written `impl %s for %s` where the model assumes the derived one' % (tr, ty)))
+
+    g.shape = source_shape(g, LIB, RNG)
 
     # ---------------------------------------------------------------- m_props / m_canary
     g.emit('m_props', P('props.rs'))
@@ -675,6 +680,9 @@ impl OrdSpecImpl for Version { open spec fn obeys_cmp_spec() -> bool { true } op
         'functions': g.functions,
         'inventory': inventory(repo, g.functions),
         'overrides': g.overrides,
+        'source_shape': g.shape,
+        'expected_clauses': sorted(set(m.group(1) for grid in ([K.grid_partial('p'), K.grid_caret('p'), K.grid_tilde('p'), K.grid_hyphen('lo', 'up')] + [K.grid_primitive(op, 'p') for op in K.OPS])
+                                       for line in grid for line1 in line.split('\n') for m in [re.search(r'//\s*@(\S.*?)\s*$', line1)] if m) | {'range#empty-is-star'}),
         'unsafe': [('%s:%d' % (rel, i)) for rel in ('src/lib.rs', 'src/range.rs') if os.path.exists(os.path.join(repo, rel)) for i, l in enumerate(open(os.path.join(repo, rel)).read().split('\n'), 1) if re.search(r'\bunsafe\b', l.split('//')[0])],
         'clauses': clauses,
         'lost_hints': g.lost_hints,
@@ -731,6 +739,122 @@ def inventory(repo, functions):
                 st, by = 'macro body: every integer instance is proved by the Kani harnesses of C18 (the u64 instance also by Verus)', ['tools/kani_c18.py']
             out.append({'file': rel, 'line': l0, 'end': l1, 'fn': m.group(1), 'status': st, 'by': sorted(set(by))})
     return out
+
+
+
+# ---------------------------------------------------------------------------------------------------------------- source shape
+# "The verified text is the code that runs" holds only in a closed world: the functions are cut out of two files by name, so what
+# rustc compiles must be those files, those definitions, under one configuration, with no other code able to step in between a
+# call and the extracted callee.  Everything below is syntactic, runs on the masked source (comments / literals blanked), and a
+# deviation never alarms: it loses the unit `source-shape`, which leaves every property undecided (the stand-in still searches).
+CORE_TYPES = ('Version', 'Identifier', 'VersionDiff', 'Predicate', 'Bound', 'BoundSet', 'Range', 'Partial', 'Operation')
+_P = r'(?:::)?(?:std::|core::)?'
+KNOWN_IMPL_HEADERS = [
+    r'impl Diagnostic for SemverError', r'impl SemverError', r'impl<I: Clone \+ Stream> ParserError<I> for SemverParseError<I>',
+    r'impl<I: Stream> AddContext<I> for SemverParseError<I>', r"impl<'a> FromExternalError<&'a str, SemverParseError<&'a str>> for SemverParseError<&'a str>",
+    r'impl (?:' + _P + r'fmt::|fmt::)?Display for (?:Identifier|VersionDiff|Version|BoundSet|Operation|Range)',
+    r'impl Serialize for (?:Version|Range)', r"impl<'de> Deserialize<'de> for (?:Version|Range)",
+    r'impl (?:Version|Extras|BoundSet|Predicate|Bound|Range|Partial)',
+    r'impl (?:' + _P + r'cmp::|cmp::)?(?:PartialEq|Eq|PartialOrd|Ord) for (?:Version|Identifier)', r'impl (?:' + _P + r'cmp::|cmp::)?(?:PartialOrd|Ord) for Bound',
+    r'impl (?:' + _P + r'hash::|hash::)?Hash for Version', r'impl (?:' + _P + r'clone::|clone::)?Clone for (?:' + '|'.join(CORE_TYPES) + ')',
+    r'impl (?:::)?(?:std::|core::)?(?:convert::)?From<\(\$t, \$t, \$t(?:, \$t)?\)> for Version', r'impl (?:' + _P + r'str::|str::)?FromStr for (?:Version|Range)',
+    r'impl From<Partial> for Version',
+]
+
+
+def non_test_code(src):
+    """masked source with every `#[cfg(test)] mod .. { .. }` blanked as well"""
+    code = src.code
+    out = list(code)
+    for m in re.finditer(r'(?:#\[[^\]]*\]\s*)*#\[cfg\(test\)\]\s*(?:#\[[^\]]*\]\s*)*mod\s+\w+\s*\{', code):
+        try:
+            e = match_brace(code, m.end() - 1)
+        except AnchorLost:
+            e = len(code)
+        for k in range(m.start(), e):
+            if out[k] != '\n':
+                out[k] = ' '
+    # test-generating macros (bodies are only instantiated under cfg(test))
+    for m in re.finditer(r'^macro_rules!\s+create_tests_for\s*\{', code, re.M):
+        e = match_brace(code, m.end() - 1)
+        for k in range(m.start(), e):
+            if out[k] != '\n':
+                out[k] = ' '
+    return ''.join(out)
+
+
+def source_shape(g, LIB, RNG):
+    bad = []
+    lib, rng = non_test_code(LIB), non_test_code(RNG)
+    # S1 module wiring: lib.rs compiles src/range.rs as `range`, nothing else
+    mods = re.findall(r'^\s*(?:pub(?:\([^)]*\))?\s+)?mod\s+(\w+)\s*[;{]', lib, re.M) + re.findall(r'^\s*(?:pub(?:\([^)]*\))?\s+)?mod\s+(\w+)\s*[;{]', rng, re.M)
+    if mods != ['range']:
+        bad.append('module declarations are %s, expected exactly `mod range;` in lib.rs' % mods)
+    if re.search(r'#\[path\b|include!\s*\(', lib + rng):
+        bad.append('`#[path]` / `include!` redirects what is compiled')
+    # S2 one build configuration: the only conditional compilation is the serde feature on serde items (tests are blanked above)
+    for (nm, code) in (('src/lib.rs', lib), ('src/range.rs', rng)):
+        if re.search(r'\bcfg!\s*\(|\bcfg_attr\b|\bcfg_if\b', code):
+            bad.append('%s: `cfg!` / `cfg_attr` makes the code depend on the build configuration (Verus sees one of them)' % nm)
+        for m in re.finditer(r'#\[cfg\(([^\]]*)\)\]\s*(?:#\[[^\]]*\]\s*)*([^\n]*)', code):
+            nxt = m.group(2).strip()
+            if not re.match(r'(use\s|impl Serialize for|impl<\'de> Deserialize<\'de> for|mod\s)', nxt):
+                bad.append('%s:%d: conditional compilation on `%s`' % (nm, code.count('\n', 0, m.start()) + 1, nxt[:50]))
+    # S3 impls: only the ones the model knows may touch the core types (method resolution finds impls for Box<T>, &T, blanket impls first)
+    for (nm, src, code) in (('src/lib.rs', LIB, lib), ('src/range.rs', RNG, rng)):
+        for m in re.finditer(r'^[ \t]*(?:unsafe\s+)?(impl\b[^{;]*?)\s*\{', code, re.M):
+            hdr = ' '.join(src.text[m.start(1):m.end(1)].split())
+            if any(re.fullmatch(k, hdr) for k in KNOWN_IMPL_HEADERS):
+                continue
+            tgt = hdr.split(' for ')[-1] if ' for ' in hdr else hdr
+            generic = re.match(r'impl<\s*(\w+)', hdr)
+            if any(re.search(r'\b%s\b' % t, hdr) for t in CORE_TYPES) or re.search(r'\bBox\b|&|\bVec\b|\bOption\b', tgt) or (generic and re.fullmatch(r'%s' % generic.group(1), tgt.strip())):
+                bad.append('%s:%d: an impl the model does not know: `%s`' % (nm, code.count('\n', 0, m.start()) + 1, hdr[:90]))
+        for m in re.finditer(r'^[ \t]*(?:pub(?:\([^)]*\))?\s+)?(?:unsafe\s+)?trait\s+(\w+)', code, re.M):
+            bad.append('%s:%d: a trait defined in the crate (`%s`): its methods can shadow the extracted ones' % (nm, code.count('\n', 0, m.start()) + 1, m.group(1)))
+    # S5 no macro invocation at item level inside an impl block of a core type (it could expand to methods nobody extracts)
+    for (nm, src, code) in (('src/lib.rs', LIB, lib), ('src/range.rs', RNG, rng)):
+        for m in re.finditer(r'^impl\b[^{;]*\b(?:%s)\b[^{;]*\{' % '|'.join(CORE_TYPES), code, re.M):
+            if '$t' in src.text[m.start():m.end()]:
+                continue
+            e = match_brace(code, m.end() - 1)
+            for mm in re.finditer(r'^    (\w+)!\s*[\(\{\[]', code[m.end():e], re.M):
+                bad.append('%s:%d: macro invocation `%s!` at item level inside `%s`' % (nm, code.count('\n', 0, m.end() + mm.start()) + 1, mm.group(1), ' '.join(src.text[m.start():m.end() - 1].split())[:60]))
+    # S6 the shape of the core types (the structural equality model, `key()`, the field-wise contracts are written for these fields)
+    want = {
+        'Version': r'pub struct Version \{ pub major: u64, pub minor: u64, pub patch: u64, pub build: Vec<Identifier>, pub pre_release: Vec<Identifier>, \}',
+        'Identifier': r'pub enum Identifier \{ Numeric\(u64\), AlphaNumeric\(String\), \}',
+        'BoundSet': r'struct BoundSet \{ upper: Box<Bound>, lower: Box<Bound>, \}|struct BoundSet \{ lower: Box<Bound>, upper: Box<Bound>, \}',
+        'Bound': r'enum Bound \{ Lower\(Predicate\), Upper\(Predicate\), \}',
+        'Predicate': r'enum Predicate \{ Excluding\(Version\), Including\(Version\), Unbounded, \}',
+        'Range': r'pub struct Range\(Vec<BoundSet>\);',
+        'Partial': r'struct Partial \{ major: Option<u64>, minor: Option<u64>, patch: Option<u64>, pre_release: Vec<Identifier>, build: Vec<Identifier>, \}',
+    }
+    for ty, rx in want.items():
+        src, code = (LIB, lib) if ty in ('Version', 'Identifier') else (RNG, rng)
+        m = re.search(r'^(?:pub(?:\([^)]*\))?\s+)?(?:struct|enum)\s+%s\b' % ty, code, re.M)
+        if not m:
+            bad.append('type %s not found' % ty)
+            continue
+        ob = code.find('{', m.end())
+        sc = code.find(';', m.end())
+        e = sc + 1 if (0 <= sc and (ob < 0 or sc < ob)) else match_brace(code, ob)
+        got = ' '.join(code[m.start():e].split())
+        if not re.fullmatch(rx, got):
+            bad.append('the definition of %s changed: `%s`' % (ty, got[:140]))
+    # S7 every BoundSet / Range is built inside a function under contract
+    spans = [(r['file'], r['lines'][0], r['lines'][1]) for r in g.functions if r.get('kind') in ('fn', 'closure', 'macro-instance')]
+    for m in re.finditer(r'\bBoundSet::(?:new|at_least|at_most|exact)\s*\(|\bBoundSet\s*\{|\bRange\s*\(', rng):
+        ln = rng.count('\n', 0, m.start()) + 1
+        line = rng[rng.rfind('\n', 0, m.start()) + 1:rng.find('\n', m.start())]
+        if re.match(r'\s*(?:pub\s+)?(?:struct|impl)\b', line):
+            continue
+        if not any(f == 'src/range.rs' and a <= ln <= b for (f, a, b) in spans):
+            bad.append('[range] src/range.rs:%d: a BoundSet / Range is built outside the functions under contract (`%s`)' % (ln, line.strip()[:70]))
+    for b in bad:
+        # a deviation that can only concern the range layer leaves the properties about versions alone
+        g.lost_items.append(('source-shape:range' if b.startswith('[range]') else 'source-shape', b))
+    return bad
 
 
 def scan_trusted(text):
